@@ -15,6 +15,11 @@ def regenerate_tables():
     p = run([exe], env=build.ASAN_ENV)
     if p.returncode != 0:
         raise InfraError("tabulator failed:\n" + p.stderr[-3000:])
+    exe2 = build.cc("tabulate_bus", ["gen/tab_bus.c"], daemon=True, always=False)
+    p2 = run([exe2], env=build.ASAN_ENV)
+    if p2.returncode != 0:
+        raise InfraError("bus tabulator failed:\n" + p2.stderr[-3000:])
+    p.stdout = p.stdout + p2.stdout
     import importlib.util
     spec = importlib.util.spec_from_file_location("render", os.path.join(ROOT, "gen", "render.py"))
     mod = importlib.util.module_from_spec(spec); spec.loader.exec_module(mod)
